@@ -139,6 +139,32 @@ func init() {
 				ex.pools = map[*value][]value{}
 			}
 			ex.pools[pp] = append(ex.pools[pp], args[1])
+			// From now on another goroutine may take the object and overwrite it: the
+			// byte slices it owns are filled with a marker, so that code which keeps
+			// using their memory after Put (an alias handed out before) reads garbage.
+			// Correct code never looks at a pooled object again after Put.
+			if fr.caller != nil && fr.caller.fn != nil && fr.caller.fn.Pkg != nil &&
+				strings.HasPrefix(fr.caller.fn.Pkg.Pkg.Path(), "github.com/wneessen/go-mail") {
+				obj := args[1]
+				if ie, ok := obj.(iface); ok {
+					obj = ie.v
+				}
+				if pv, ok := obj.(*value); ok && pv != nil {
+					if st, ok := (*pv).(structure); ok {
+						for _, f := range st {
+							if sl, ok := f.([]value); ok {
+								full := sl[:cap(sl)]
+								for i := range full {
+									switch full[i].(type) {
+									case byte, sym:
+										full[i] = byte(0xEE)
+									}
+								}
+							}
+						}
+					}
+				}
+			}
 			return nil
 		},
 		"time.initLocal": func(fr *frame, args []value) value { return nil },
